@@ -261,16 +261,15 @@ func tagScan(c *core.Ctx, fn *core.Fn, name string, crcFn *types.Func) {
 				continue
 			}
 			tagged++
-			ok, w := s.g.OnlyViaFact(p, nonEmpty(info, arg))
+			ok, w := onlyVia(s.g, p, nonEmpty(info, arg))
 			key := name + "/nonempty"
 			if ok {
 				c.Okf("R3.tag", key, call.Pos(), "%s is hashed only when it is known to be non-empty", c.Src(arg))
 				continue
 			}
-			definite := false
-			if _, isSlice := arg.(*ast.SliceExpr); isSlice {
-				definite = true
-			} else if o := objOf(info, arg); o != nil {
+			// positive evidence only: nothing in the function relates the tag's two ends / its length
+			definite := emptinessTests(info, fn.Decl.Body, arg, crcFn) == 0
+			if o := objOf(info, arg); definite && o != nil {
 				rhs, other := defsOf(info, fn.Decl.Body, o)
 				definite = other == 0
 				for _, r := range rhs {
@@ -362,4 +361,59 @@ func nonEmpty(info *types.Info, arg ast.Expr) func(cfgq.Fact) bool {
 		}
 		return false
 	}
+}
+
+// emptinessTests counts the expressions that could decide whether the hashed
+// tag is empty: comparisons involving the tag variable (or both bounds of the
+// tag slice) and calls, other than the CRC and len, that receive it.
+func emptinessTests(info *types.Info, body ast.Node, arg ast.Expr, crcFn *types.Func) int {
+	mentions := func(e ast.Expr, o types.Object) bool {
+		hit := false
+		ast.Inspect(e, func(n ast.Node) bool {
+			if id, ok := n.(*ast.Ident); ok && o != nil && info.Uses[id] == o {
+				hit = true
+			}
+			return true
+		})
+		return hit
+	}
+	var lo, hi, tag types.Object
+	if se, ok := arg.(*ast.SliceExpr); ok && se.Low != nil && se.High != nil {
+		ast.Inspect(se.Low, func(n ast.Node) bool {
+			if id, ok := n.(*ast.Ident); ok {
+				if v, ok := info.Uses[id].(*types.Var); ok {
+					lo = v
+				}
+			}
+			return true
+		})
+		hi = objOf(info, strip(info, se.High))
+	} else {
+		tag = objOf(info, arg)
+	}
+	n := 0
+	ast.Inspect(body, func(m ast.Node) bool {
+		switch x := m.(type) {
+		case *ast.BinaryExpr:
+			switch x.Op {
+			case token.EQL, token.NEQ, token.LSS, token.GTR, token.LEQ, token.GEQ:
+				if tag != nil && (mentions(x.X, tag) || mentions(x.Y, tag)) {
+					n++
+				}
+				if lo != nil && hi != nil && (mentions(x.X, lo) && mentions(x.Y, hi) || mentions(x.X, hi) && mentions(x.Y, lo)) {
+					n++
+				}
+			}
+		case *ast.CallExpr:
+			if f := core.CalleeFunc(info, x); f != nil && f != crcFn {
+				for _, a := range x.Args {
+					if tag != nil && mentions(a, tag) {
+						n++
+					}
+				}
+			}
+		}
+		return true
+	})
+	return n
 }
